@@ -186,6 +186,7 @@ def run(ctx):
                     else:
                         r2.violation("%s:SSL_set_bio" % f.name, "BIO not created from the library's own BIO method", loc=f.loc(c))
     r2.floor(9 + 2, "descriptor-creating call sites")
+    _extra_rules(ctx, P)
     # the BIO callbacks only talk to the sub-socket
     for f in sorted(callbacks.get("openssl", ()), key=lambda f: f.name):
         if f.name in ("bio_btcp_read", "bio_btcp_write"):
@@ -227,3 +228,11 @@ def bio_is_own(P, f, nid):
                 return True
         return False
     return False
+
+
+def _extra_rules(ctx, P):
+    # the mode asked for in an attribute map (xcm.blocking=false, what XCM_NONBLOCK becomes) must reach the socket before
+    # the connect: the map walk may stop only by failing the call (C11.R10's engine)
+    from . import C11 as c11
+    r3 = ctx.rule("C05.R3", "xcm.blocking=false from the attribute map is applied before the connect: no setter can stop the map walk without failing the call")
+    c11.check_setter_status(P, r3)
